@@ -17,7 +17,9 @@ OUTCOMES = {
 }
 NOT_EXECUTED = ('SYNTAX_ERROR', 'VALIDATION_ERROR', 'FILE_ACCESS_ERROR', 'PRE_PROCESS_ERROR')
 
-STUBS = ('subprocess module at process_executor / preprocessor: recording stub that starts nothing and reports exit code 0',
+STUBS = ('whole-program runs: the selector is made concrete, then the program runs natively on the concrete test case (CrossHair '
+         'tracing suspended); the solver enumerates the selector space',
+         'subprocess module at process_executor / preprocessor: recording stub that starts nothing and reports exit code 0',
          'deterministic sandbox resolver (MainProgram constructor argument)', 'in-memory stdout/stderr')
 
 
@@ -95,6 +97,29 @@ HOME_FILES = {
 }
 
 
+class _Null:
+    def __enter__(self):
+        return self
+
+    def __exit__(self, *a):
+        return False
+
+
+def no_tracing():
+    """Context in which CrossHair's tracer is suspended (no-op outside CrossHair): the code inside runs natively.
+    Only for blocks in which every value is concrete (selectors already made concrete by ob.pick / ob.concrete_*).
+    Used where CrossHair's *models* of library code would otherwise stand in for the real thing although nothing is
+    symbolic: its pure-Python model of re.sub / Match.expand (it does not raise like the real engine for an invalid
+    replacement template, and recursed), and - in whole-program runs - its replacements of hash() / repr()."""
+    try:
+        from crosshair.tracers import NoTracing, is_tracing
+    except ImportError:
+        return _Null()
+    if not is_tracing():
+        return _Null()
+    return NoTracing()
+
+
 _HANDLING_SETUP = []
 
 
@@ -119,7 +144,13 @@ def _execute_after_argument_parsing(mp, path: str, case_dir: str, output) -> int
 
 
 def run_cli(text: str, extra_args=(), through_argument_parser: bool = False):
-    """Runs `exactly [extra_args] FILE` where FILE holds `text`.  Returns what is observable."""
+    """Runs `exactly [extra_args] FILE` where FILE holds `text` (a concrete str).  Returns what is observable.
+    The program runs natively (tracing suspended, see no_tracing): its input is concrete."""
+    with no_tracing():
+        return _run_cli(text, extra_args, through_argument_parser)
+
+
+def _run_cli(text: str, extra_args=(), through_argument_parser: bool = False):
     from vsym import scratch
     from exactly_lib.util.file_utils.std import StdOutputFiles
     mp = _main_program()
